@@ -3,7 +3,7 @@
 of harness/seedtest.sh given on stdin (latest line per mutant wins) and an optional notes file of corrections"""
 import json, os, re, shutil, sys
 first = {}
-for f in ("/tmp/r5_results_2.txt", "/tmp/r5_results_3.txt", "/tmp/r5_results_4.txt"):
+for f in ("/tmp/r5_results_2.txt", "/tmp/r5_results_3.txt", "/tmp/r5_results_4.txt", "/tmp/r5_results_5.txt"):
     for line in open(f):
         m = re.match(r"(C\d\d_r5m\d) suite=\[(.*?)\] demo_with=(\d+) demo_without=(\d+) (C\d\d):rc=(\d):v=(\d*)", line)
         if m and m.group(1) not in first:
